@@ -137,6 +137,27 @@ def expected(ds, r, shift, easter, n):
 def gen_case(rng):
     ds = rrgen.gen_dtstart(rng, allday=True, lo=1905, hi=2085)
     easter = None
+    if rng.random() < 0.15:
+        # the last days of a period pushed over its end: the occurrence belongs to the period before DTSTART's, and with a
+        # zero business-day shift (0B, 0B+, 1,0B) it is only a week-end that moves
+        freq = rng.choice(["YEARLY", "YEARLY", "MONTHLY"])
+        r = rfc5545.Rule(freq)
+        r.bymonthday = sorted(set(rng.sample([-1, -2, 30, 31, 29], rng.randint(1, 3))))
+        if freq == "YEARLY":
+            r.bymonth = [12]
+            y0 = ds[0]
+            if rng.random() < 0.6:
+                # a year whose eve is a Saturday or Sunday
+                while dt.date(y0 - 1, 12, 31).weekday() < 5:
+                    y0 = y0 + 1 if y0 < 2085 else 1906
+            ds = (y0, 1, rng.choice([1, 1, 2, 3]), None, None, None)
+        else:
+            ds = (ds[0], ds[1], rng.choice([1, 1, 2, 3]), None, None, None)
+        if rng.random() < 0.3:
+            r.count = rng.choice([1, 3, 10, 70])
+        sh = rng.choice([Shift(0, 0), Shift(0, 0, keep=True), Shift(1, 0), Shift(0, 1), Shift(0, 1, keep=True), Shift(2, None),
+                         Shift(0, 2), Shift(1, 1)])
+        return ds, r, sh, None
     if rng.random() < 0.35:
         r = rfc5545.Rule("YEARLY")
         if rng.random() < 0.2:
